@@ -135,7 +135,7 @@ def worker(idx, nworkers, tier, seed, extra):
     if not os.path.exists(WSX_RUG):
         mon.inconc("the GMP executor is not built")
         return mon
-    scale = {"quick": 1, "thorough": 12}[tier]
+    scale = {"quick": 1, "thorough": 100}[tier]
     w = DualWsx(mon, rnd)
     try:
         # process history: three of four executors see a client session with another announced modulus before
@@ -230,6 +230,15 @@ def worker(idx, nworkers, tier, seed, extra):
                     _raw_client(w, {"user": user, "pw": pw, "cuser": user, "cpw": pw, "salt": c03.rb(rnd, 32).hex(), "g": g,
                                     "n": M.to_le(n_).hex(), "b": c03.rb(rnd, 32).hex(), "a": a.hex(), "Bmode": "honest"})
                     mon.count("composite_modulus_calls")
+        # ---- the same account (same x) and generator under different announced moduli, one after the other
+        w.kind = "same_account_other_modulus"
+        for rep_ in range(2 * scale):
+            user, pw, salt_ = c01.rand_cred(rnd), c01.rand_cred(rnd), c03.rb(rnd, 32)
+            for g in (7, 11, 2):
+                for n_ in (M.N, 5, 257, c03.random_prime(rnd, 64), M.N, 9, c03.random_prime(rnd, 200), 65537):
+                    _raw_client(w, {"user": user, "pw": pw, "cuser": user, "cpw": pw, "salt": salt_.hex(), "g": g, "n": M.to_le(n_).hex(),
+                                    "b": c03.rb(rnd, 32).hex(), "a": c03.rb(rnd, 32).hex(), "Bmode": "honest"})
+                    mon.count("same_account_other_modulus_calls")
         # ---- C04: public-key family samples and own-key paths
         w.kind = "c04"
         for i in range(40 * scale):
